@@ -42,7 +42,7 @@ CONSTANTS MaxActions,   \* bound on the number of builder actions
           Blocks,       \* enabled block actions, subset of {"para","list","lit","doctest","code","section","version","poison"};
                         \* "typed" \in Blocks switches the bodies of type fields to structured type expressions
           Hows,         \* histories by which the object gets the docstring, subset of
-                        \* {"direct", "assigned", "inherited", "narrowed", "twin", "moved"}
+                        \* {"direct", "assigned", "inherited", "narrowed", "twin", "moved", "afterprop"}
           Forms,        \* ways of writing a field enabled in this run, subset of {"plain", "cbullet", "cdef", "nsee"}
           FreeChoice    \* TRUE: inline style and verbatim template are free choices
                         \* FALSE: they rotate with the word counter (every one occurs, in varying contexts)
@@ -366,8 +366,10 @@ ASSUME PrintT(ToJson([templates |-> Templates]))
 \*   moved     : the docstring belongs to a method of a class written in a module that declares __docformat__ = <format>,
 \*               re-exported (from ._impl import C; __all__ = ['C']) by a package of a system whose default docformat is
 \*               ANOTHER one: the class is moved before its members' docstrings are parsed
+\*   afterprop : direct, in a system that has ALREADY parsed the docstring of a property (which google / numpy read in
+\*               "attribute mode": "type: description") - whatever was analysed first must not change how this one is read
 ValidHow(hw) == \/ hw = "direct"
-                \/ hw \in {"narrowed", "moved"} /\ Host = "function"
+                \/ hw \in {"narrowed", "moved", "afterprop"} /\ Host = "function"
                 \/ hw = "twin" /\ Host \in {"function", "property"}
                 \/ hw = "assigned" /\ Host \in {"class", "property", "function"}
                                    /\ \A k \in 1..Len(Fields(doc)) : Fields(doc)[k].where # "attribute"
